@@ -502,47 +502,20 @@ class supply_files_assumed:
     result = lambda: ty.SeqOf(SupplyInfoRec)
     modifies = []
 
-
-for _name, _res in (("_check_declaration", ty.Bool), ("_declare_file", None), ("_hashes_to_check", None),
-                    ("_raise_if_glob_match", None)):
-    pass
-
-
-@contract("stepup/core/workflow.py::Workflow._check_declaration", props=[], verify=False,
-          note="True when the declaration is new, False when it repeats the creator's own; raises on a conflict (C08)")
-class check_declaration_assumed:
-    may_raise = {common.GraphError: None}
-    result = ty.Bool
-    modifies = []
-
-
-class _DeclaredFile:
-    def __init__(self, name):
-        pass
-
-    def add_source(self, step):
-        return ty.Int.fresh(cur().fresh_name("idep"))
-
-
-@contract("stepup/core/workflow.py::Workflow._declare_file", props=[], verify=False,
-          note="creates or re-attaches the file node in the given state (C08 / C09)")
-class declare_file_assumed:
-    may_raise = {common.GraphError: None, common.ConsistencyError: None}
-    result = lambda: ty.Make(_DeclaredFile)
-    modifies = []
+    @staticmethod
+    def ensures(self):
+        """View: the file nodes it creates for undeclared inputs are UNDECLARED, hence detached (triggers
+        file_check_undeclared_detached_*): no claim, step label, tree or glob registration changes."""
+        db = common.db_of(self)
+        old = common.View(db.__snapshot__())
+        db.bump()
+        return wrap_bool(common.frame_view(old, common.View(db)))
 
 
 @contract("stepup/core/workflow.py::Workflow._hashes_to_check", props=[], verify=False,
           note="the known hashes of the given unconfirmed files, keyed by path")
 class hashes_to_check_assumed:
     result = lambda: ty.MapOf(ty.Str, ty.Opaque("FileHashV"))
-    modifies = []
-
-
-@contract("stepup/core/workflow.py::Workflow._raise_if_glob_match", props=[], verify=False,
-          note="raises GraphError when a registered pattern matches one of the paths (C08)")
-class raise_if_glob_match_assumed:
-    may_raise = {common.GraphError: None}
     modifies = []
 
 
@@ -568,19 +541,115 @@ def _amend_step_node(args):
     return common.fresh_node(common.Step, args["self"], "step")
 
 
-@contract("stepup/core/workflow.py::Workflow.amend_step", props=["C03"])
+# C08 clauses of amend_step: every product the step declares is unclaimed and matched by no registered glob at
+# the moment it is declared.  The two filtering comprehensions call _check_declaration (a database read per
+# element), so they are read as loops.
+
+extract.COMP_AS_LOOP.add("stepup/core/workflow.py::Workflow.amend_step")
+
+
+def _c08():
+    from contracts import C08_claims
+
+    return C08_claims
+
+
+@contract("stepup/core/workflow.py::_raise_if_out_and_vol_overlap", props=[], verify=False,
+          note="raises GraphError when a path is in both collections; otherwise they are disjoint")
+class out_vol_overlap_assumed:
+    may_raise = {common.GraphError: None}
+    modifies = []
+
+    @staticmethod
+    def ensures(out_paths, vol_paths):
+        a, b = sym.resolve(out_paths), sym.resolve(vol_paths)
+        if not (isinstance(a, sym.SymSeq) and isinstance(b, sym.SymSeq)):
+            return True
+        from vc import vcrt
+
+        c = cur()
+        k, m = tm.Var(c.fresh_name("k!bound"), INT), tm.Var(c.fresh_name("m!bound"), INT)
+        return wrap_bool(vcrt.quantified([(k.s, INT), (m.s, INT)], lambda: tm.Implies(
+            tm.And(tm.Le(tm.mk_int(0), k), tm.Lt(k, a.length), tm.Le(tm.mk_int(0), m), tm.Lt(m, b.length)),
+            tm.Ne(S(a.elem(k)), S(b.elem(m))))))
+
+
+def _idx(sorted_seq, p):
+    has = sorted_seq.container.has
+    return cur().decls.fun("index_String", [has.sort, STR], INT)(has, S(p))
+
+
+def _filter_inv(name, src_name):
+    """Loop `name = [p for p in <sorted set> if self._check_declaration(step, p, role)]`: every kept path is
+    unclaimed, comes from a position before i of the sorted input, and positions ascend (so paths are distinct)."""
+
+    def inv(e):
+        kept = getattr(e, name)
+        if not isinstance(kept, sym.SymSeq):
+            return True
+        src = getattr(e, src_name)
+        db = common.db_of(e.self)
+        k, m = I(e.q.k), I(e.q.m)
+        p, later = kept.elem(k), kept.elem(m)
+        inr = tm.And(tm.Le(tm.mk_int(0), k), tm.Lt(k, kept.length))
+        return wrap_bool(tm.Implies(inr, tm.And(
+            tm.Not(common.View(db).claimed(p)), tm.Le(tm.mk_int(0), _idx(src, p)), tm.Lt(_idx(src, p), I(e.i)),
+            tm.Implies(tm.And(tm.Lt(k, m), tm.Lt(m, kept.length)), tm.Lt(_idx(src, p), _idx(src, later))))))
+
+    return inv
+
+
+def _all_pending_ok(e, seq, start):
+    """Every path of `seq` from position `start` on is unclaimed and matched by no registered glob (now)."""
+    db = common.db_of(e.self)
+    v = common.View(db)
+    k = I(e.q.k)
+    p = seq.elem(k)
+    return tm.Implies(tm.And(tm.Le(start, k), tm.Lt(k, seq.length)),
+                      tm.And(tm.Not(v.claimed(p)), tm.Not(v.globmatch(p))))
+
+
+def _distinct(e, seq):
+    k, m = I(e.q.k), I(e.q.m)
+    return tm.Implies(tm.And(tm.Le(tm.mk_int(0), k), tm.Lt(k, m), tm.Lt(m, seq.length)), tm.Ne(S(seq.elem(k)), S(seq.elem(m))))
+
+
+def _disjoint(e, a, b):
+    k, m = I(e.q.k), I(e.q.m)
+    return tm.Implies(tm.And(tm.Le(tm.mk_int(0), k), tm.Lt(k, a.length), tm.Le(tm.mk_int(0), m), tm.Lt(m, b.length)),
+                      tm.Ne(S(a.elem(k)), S(b.elem(m))))
+
+
+def _out_loop_inv(e):
+    return [_all_pending_ok(e, e.out_paths, I(e.i)), _all_pending_ok(e, e.vol_paths, tm.mk_int(0)),
+            _distinct(e, e.out_paths), _distinct(e, e.vol_paths), _disjoint(e, e.out_paths, e.vol_paths)]
+
+
+def _vol_loop_inv(e):
+    return [_all_pending_ok(e, e.vol_paths, I(e.i)), _distinct(e, e.vol_paths)]
+
+
+_DYN = ty.SeqOf(ty.TupleOf(ty.Int))
+
+
+@contract("stepup/core/workflow.py::Workflow.amend_step", props=["C03", "C08"])
 class wf_amend_step:
     args = dict(self=common.workflow_spec(), step=_amend_step_node, inp_paths=ty.SeqOf(ty.Str), env_deps=ty.SetOf(ty.Str),
                 out_paths=ty.SeqOf(ty.Str), vol_paths=ty.SeqOf(ty.Str), ran_concurrently=lambda a: _ran_concurrently_stub)
-    env = dict(_raise_if_dir_inputs=lambda p: None, _raise_if_out_and_vol_overlap=lambda *a: None,
-               set=_amend_set)
+    env = dict(_raise_if_dir_inputs=lambda p: None, set=_amend_set, _creator_phrase=lambda *a: "creator")
     may_raise = {common.GraphError: None, common.ConsistencyError: None}
     modifies = []
     loops = {0: LoopSpec(locals=dict(unavailable=ty.SetOf(ty.Str), unfresh=ty.SetOf(ty.Str), unconfirmed=ty.SetOf(FileH),
-                                     dynamic_ideps=ty.SeqOf(ty.TupleOf(ty.Int))),
+                                     dynamic_ideps=_DYN),
                          step_post=_amend_iter_post),
-             1: LoopSpec(locals=dict(dynamic_ideps=ty.SeqOf(ty.TupleOf(ty.Int)))),
-             2: LoopSpec(locals=dict(dynamic_ideps=ty.SeqOf(ty.TupleOf(ty.Int))))}
+             1: LoopSpec(locals=dict(out_paths=ty.SeqOf(ty.Str)), forall=dict(k=ty.Int, m=ty.Int),
+                         invariant=_filter_inv("out_paths", "comp1_iter")),
+             2: LoopSpec(locals=dict(vol_paths=ty.SeqOf(ty.Str)), forall=dict(k=ty.Int, m=ty.Int),
+                         invariant=_filter_inv("vol_paths", "comp2_iter")),
+             3: LoopSpec(locals=dict(dynamic_ideps=_DYN), forall=dict(k=ty.Int, m=ty.Int), invariant=_out_loop_inv,
+                         havoc=("self",), modifies={"self": ["db"]}),
+             4: LoopSpec(locals=dict(dynamic_ideps=_DYN), forall=dict(k=ty.Int, m=ty.Int), invariant=_vol_loop_inv,
+                         havoc=("self",), modifies={"self": ["db"]})}
 
 
 # ---------------------------------------------------------------- Scheduler._derive_job
